@@ -12,8 +12,12 @@ class KTable:
         from scipy.interpolate import interp1d
         wngrid_filter = slice(None)
         if wngrid is not None:
-            wngrid_filter = np.where((self.wavenumberGrid >= wngrid.min()) & (
-                self.wavenumberGrid <= wngrid.max()))[0]
+            native = self.wavenumberGrid
+            start = max(np.searchsorted(native, wngrid.min(),
+                                        side='right') - 1, 0)
+            end = min(np.searchsorted(native, wngrid.max(), side='left') + 1,
+                      native.shape[0])
+            wngrid_filter = np.arange(start, end)
         orig = self.compute_opacity(temperature, pressure, wngrid_filter).reshape(-1, len(self.weights))
 
         if wngrid is None or np.array_equal(self.wavenumberGrid.take(wngrid_filter), wngrid):
